@@ -249,7 +249,7 @@ def analyse_conn(facts, R, path, role, is_async, floor=2):
             continue
         seen.add(cur)
         for i, t in facts.body(cur).calls():
-            if _is_base_write_prim(t):
+            if _is_base_write_prim(t) or id(t) in COMPOSITE_WRITES:
                 total += 1
             elif t["callee"]["path"] in WRITE_HELPERS:
                 work.append(WRITE_HELPERS[t["callee"]["path"]])
@@ -409,9 +409,19 @@ def run(facts, R):
         if takes and any(is_write_prim(t2) for _, t2 in b_.calls()):
             derived_conn.append((b_.path, "client", b_.kind == "coroutine"))
             R.note("derived client frame writer (judged like write_request): " + b_.path)
+    # derived server connection loops (the same domain C03 derives): a function of the TCP server modules that reads frames in a cycle
+    # and writes frames (directly or in a timed write block) owns its connection's writer like handle_connection does
+    from analysis.flow import in_cycle as _in_cycle
+    for p_, b_ in sorted(facts.bodies.items()):
+        if p_.split("::")[0] not in ("server", "async_server") or any(p_ == x[0] for x in CONN) or "::tests::" in p_:
+            continue
+        rd_ = [i_ for i_, t_ in b_.calls() if callee_matches(t_["callee"], "io::read_message_into", "io::read_message", "async_io::read_message_into_async", "async_io::read_message_async")]
+        if rd_ and any(_in_cycle(b_, i_) for i_ in rd_) and any(is_write_prim(t_) for _, t_ in b_.calls()):
+            derived_conn.append((p_, "server", b_.kind == "coroutine"))
+            R.note("derived server connection loop (judged like handle_connection): " + p_)
     conn_all = tuple(CONN) + tuple(derived_conn)
     for path, role, is_async in conn_all:
-        info[path] = analyse_conn(facts, R, path, role, is_async)
+        info[path] = analyse_conn(facts, R, path, role, is_async, floor=2 if any(path == p_ for p_, _, _ in CONN) else 1)
         work = [path]
         while work:
             cur = work.pop()
@@ -527,7 +537,7 @@ def run(facts, R):
             R.bad("frames-are-well-formed", v["fn"], v["what"], v["msg"], v.get("site"), v.get("path"))
 
     # ---- one writer per server connection: the BufWriter local is never moved / shared
-    for path, role, is_async in CONN:
+    for path, role, is_async in conn_all:
         if role != "server":
             continue
         b, sym, prims = info[path]
